@@ -252,7 +252,7 @@ func cmdCheck(args []string) int {
 		for _, name := range order {
 			hs := byName[name]
 			all = append(all, hs)
-			if nat != nil && !*noNative {
+			if nat != nil && !*noNative && !hs.SymbolicOnly {
 				for wi, w := range hs.Witnesses {
 					p := filepath.Join(replayDir, fmt.Sprintf("%s-witness-%d.json", name, wi))
 					writeReplay(p, id, name, g, "witness", "", w)
@@ -292,7 +292,7 @@ func cmdCheck(args []string) int {
 				p := filepath.Join(replayDir, fmt.Sprintf("%s-%d.json", name, vi))
 				writeReplay(p, id, name, g, v.Kind, v.Msg, v.Inputs)
 				confirmed := "symbolic-only"
-				if nat != nil {
+				if nat != nil && !hs.SymbolicOnly {
 					out, st := nat.run(name, p)
 					switch st {
 					case "assertfail", "panic":
@@ -598,6 +598,7 @@ func mergeResult(a, b *interp.Result) {
 		a.WallSec = b.WallSec
 	}
 	a.Instrs += b.Instrs
+	a.SymbolicOnly = a.SymbolicOnly || b.SymbolicOnly
 	if len(a.Samples) < 6 {
 		a.Samples = append(a.Samples, b.Samples...)
 	}
